@@ -38,6 +38,10 @@ def programs(seed, n, syms=gen.SYMS, tids=None):
                                   "args": {"axes": [allax, allax], "mode": rng.choice(["auto", "fused", "blockwise"])},
                                   "entry": "symmray"})
                     steps.append(rel("norm2", "C10.norm." + name, out, "x"))
+                    if rank == 1:
+                        # the same pairing written with the matrix-product operator
+                        steps.append({"op": "matmul", "in": ins, "out": [out + "m"], "args": {}})
+                        steps.append(rel("norm2", "C10.norm." + name + ".matmul", out + "m", "x"))
         steps.append({"op": "H", "in": ["x"], "out": ["xH"], "args": {}})
         steps.append(rel("same", "C10.H_is_dagger", "xH", "d0"))
         steps.append({"op": "conj", "in": ["c0"], "out": ["cc"], "args": {}})
